@@ -1,4 +1,5 @@
-//! C06: compilation is total. Inputs of five families are compiled stage by
+//! C06: compilation is total. Inputs of eight classes (five original ones plus
+//! `truncated`, `infer` and `chains` from totality_more.rs) are compiled stage by
 //! stage; panics are caught (violation), process deaths and hangs are seen by the
 //! driver, both renderings of an error report must succeed and every cited span
 //! must lie inside its file on character boundaries.
@@ -12,6 +13,13 @@ use crate::rg::mutate;
 use crate::rg::print;
 use crate::rng::Rng;
 use crate::work::{Args, CaseOut, Family, catch, hash_str, panic_sig};
+
+#[path = "totality_more.rs"]
+mod more;
+
+/// Nesting bound of the family (DESIGN.md C06: "nesting depth bounded by 48"). Chains
+/// that nest in the syntax tree stay at or below it; `--chain-max N` overrides it.
+const MAX_NEST: usize = 48;
 
 pub struct Totality {
     rt: Runtime<NoCtx>,
@@ -344,13 +352,28 @@ fn odd_program(rng: &mut Rng) -> String {
 struct Input {
     family: &'static str,
     detail: String,
+    /// input class named in the signature of a worker death / hang (new classes only)
+    hint: Option<String>,
+    /// coverage tags of the input
+    tags: Vec<String>,
     /// (module name, source) ; first = root. One element = single file.
     files: Vec<(String, String)>,
 }
 
-fn make_input(rng: &mut Rng) -> Input {
+fn from_made(family: &'static str, m: more::Made) -> Input {
+    Input { family, detail: m.detail, hint: Some(m.hint), tags: m.tags, files: m.files }
+}
+
+fn make_input(rng: &mut Rng, max_nest: usize) -> Input {
+    // a quarter of the cases goes to the three classes of totality_more.rs
     match rng.below(100) {
-        0..=19 => Input { family: "token-soup", detail: String::new(), files: vec![("pkg".into(), token_soup(rng))] },
+        0..=9 => return from_made("truncated", more::truncated(rng)),
+        10..=20 => return from_made("infer", more::infer(rng)),
+        21..=25 => return from_made("chains", more::chains(rng, max_nest)),
+        _ => {}
+    }
+    match rng.below(100) {
+        0..=19 => Input { family: "token-soup", detail: String::new(), hint: None, tags: Vec::new(), files: vec![("pkg".into(), token_soup(rng))] },
         20..=54 => {
             let (p, _) = gen_base(rng);
             let (q, _) = gen_base(rng);
@@ -358,7 +381,7 @@ fn make_input(rng: &mut Rng) -> Input {
             let src = print::print_program(&p, Some(seed));
             let other = print::print_program(&q, None);
             let (m, kinds) = mutate_text(rng, &src, &other);
-            Input { family: "text-mutant", detail: kinds, files: vec![("pkg".into(), m)] }
+            Input { family: "text-mutant", detail: kinds, hint: None, tags: Vec::new(), files: vec![("pkg".into(), m)] }
         }
         55..=69 => {
             let (p, _) = gen_base(rng);
@@ -374,11 +397,13 @@ fn make_input(rng: &mut Rng) -> Input {
             Input {
                 family: "ill-typed",
                 detail: kind.to_string(),
+                hint: None,
+                tags: Vec::new(),
                 files: vec![("pkg".into(), src.unwrap_or_else(|| print::print_program(&p, None)))],
             }
         }
-        70..=79 => Input { family: "unicode", detail: String::new(), files: vec![("pkg".into(), unicode_program(rng))] },
-        80..=87 => Input { family: "odd", detail: String::new(), files: vec![("pkg".into(), odd_program(rng))] },
+        70..=79 => Input { family: "unicode", detail: String::new(), hint: None, tags: Vec::new(), files: vec![("pkg".into(), unicode_program(rng))] },
+        80..=87 => Input { family: "odd", detail: String::new(), hint: None, tags: Vec::new(), files: vec![("pkg".into(), odd_program(rng))] },
         _ => {
             // module trees: 2-5 files, contents from the other families, odd names
             let names = ["a", "b", "foo", "pkg", "mod", "super", "é", "", "x y", "fn", "a.b", "T"];
@@ -399,7 +424,7 @@ fn make_input(rng: &mut Rng) -> Input {
                 };
                 files.push((name, src));
             }
-            Input { family: "module-tree", detail: format!("{n} files"), files }
+            Input { family: "module-tree", detail: format!("{n} files"), hint: None, tags: Vec::new(), files }
         }
     }
 }
@@ -439,9 +464,84 @@ fn build_tree(input: &Input) -> FileTree {
     FileTree::file_spec(FileSpec::Directory(root, children))
 }
 
+/// `'x'` / `'\u{301}'` in a panic message (the character a byte index falls into) is
+/// input data, not part of the signature.
+fn mask_quoted_chars(p: &str) -> String {
+    let cs: Vec<char> = p.chars().collect();
+    let mut out = String::new();
+    let mut i = 0;
+    while i < cs.len() {
+        if cs[i] == '\'' {
+            if let Some(j) = (i + 2..cs.len().min(i + 14)).find(|&j| cs[j] == '\'') {
+                out.push_str("'_'");
+                i = j + 1;
+                continue;
+            }
+        }
+        out.push(cs[i]);
+        i += 1;
+    }
+    out
+}
+
+/// Signature of a panic inside a compilation stage. A panic that carries Cranelift
+/// verifier errors is named after the message of the first error (digits masked),
+/// because the generic signature is cut off before it.
+fn compile_panic_sig(p: &str, stage: &str) -> String {
+    if p.contains("VerifierError")
+        && let Some(i) = p.find("message: \"")
+    {
+        let rest = &p[i + 10..];
+        let msg = &rest[..rest.find('"').unwrap_or(rest.len())];
+        let mut norm = String::new();
+        for c in msg.chars().take(90) {
+            if c.is_ascii_digit() {
+                if !norm.ends_with('#') {
+                    norm.push('#');
+                }
+            } else if c == ' ' {
+                norm.push('_');
+            } else {
+                norm.push(c);
+            }
+        }
+        return format!("codegen-verifier:{norm}@{stage}");
+    }
+    // a panic inside a dependency: name the crate, not the registry directory of this machine
+    if let Some(i) = p.find("/registry/src/")
+        && let Some(j) = p[i + 14..].find('/')
+    {
+        return format!("{}@{stage}", panic_sig(&p[i + 14 + j + 1..]));
+    }
+    format!("{}@{stage}", panic_sig(p))
+}
+
 impl Totality {
-    fn input_for(&self, rng: &mut Rng) -> Input {
-        make_input(rng)
+    fn input_for(&self, rng: &mut Rng, args: &Args) -> Input {
+        // `--src-file <path>`: replay one source text through the same oracle
+        if let Some(path) = args.opt("src-file") {
+            let src = std::fs::read_to_string(path).unwrap_or_default();
+            return Input { family: "given", detail: path.to_string(), hint: None, tags: Vec::new(), files: vec![("pkg".into(), src)] };
+        }
+        let max_nest = args.opt("chain-max").and_then(|v| v.parse().ok()).unwrap_or(MAX_NEST);
+        // `--class truncated|infer|chains`: only that class (for focused runs)
+        match args.opt("class") {
+            Some("truncated") => from_made("truncated", more::truncated(rng)),
+            Some("infer") => from_made("infer", more::infer(rng)),
+            Some("chains") => from_made("chains", more::chains(rng, max_nest)),
+            _ => make_input(rng, max_nest),
+        }
+    }
+
+    fn sample_of(input: &Input) -> J {
+        let mut j = J::obj()
+            .set("family", input.family)
+            .set("detail", input.detail.as_str())
+            .set("files", J::Arr(input.files.iter().map(|(n, s)| J::obj().set("module", n.as_str()).set("source", s.as_str())).collect()));
+        if let Some(h) = &input.hint {
+            j.put("sig_hint", h.as_str());
+        }
+        j
     }
 }
 
@@ -450,29 +550,23 @@ impl Family for Totality {
         if args.thorough() { 2_000_000 } else { 60_000 }
     }
 
-    fn describe(&mut self, _k: u64, rng: &mut Rng, _args: &Args) -> Option<J> {
-        let input = self.input_for(rng);
-        Some(
-            J::obj()
-                .set("family", input.family)
-                .set("detail", input.detail.as_str())
-                .set("files", J::Arr(input.files.iter().map(|(n, s)| J::obj().set("module", n.as_str()).set("source", s.as_str())).collect())),
-        )
+    fn describe(&mut self, _k: u64, rng: &mut Rng, args: &Args) -> Option<J> {
+        // the whole input (all files) and, for the classes that can kill the worker or
+        // run into the time limit by construction, the input class as `sig_hint`
+        let input = self.input_for(rng, args);
+        Some(Self::sample_of(&input))
     }
 
-    fn run(&mut self, _k: u64, rng: &mut Rng, _args: &Args) -> CaseOut {
+    fn run(&mut self, _k: u64, rng: &mut Rng, args: &Args) -> CaseOut {
         let mut out = CaseOut::default();
-        let input = self.input_for(rng);
+        let input = self.input_for(rng, args);
         let all: String = input.files.iter().map(|(n, s)| format!("{n}\u{1}{s}\u{2}")).collect();
         out.hash = hash_str(&all);
         out.nontrivial = true;
         out.evals = 1;
         out.tags.push(format!("input:{}", input.family));
-        let sample = J::obj()
-            .set("family", input.family)
-            .set("detail", input.detail.as_str())
-            .set("files", J::Arr(input.files.iter().map(|(n, s)| J::obj().set("module", n.as_str()).set("source", s.as_str())).collect()));
-        out.sample = Some(sample);
+        out.tags.extend(input.tags.iter().cloned());
+        out.sample = Some(Self::sample_of(&input));
         let rt = &self.rt;
         // stage by stage, so that a panic or death is attributed to a stage
         let stage = std::cell::Cell::new("parse");
@@ -499,17 +593,23 @@ impl Family for Totality {
         match res {
             Err(p) => {
                 out.viol(
-                    format!("{}@{}", panic_sig(&p), stage.get()),
+                    compile_panic_sig(&p, stage.get()),
                     format!("compiler panicked in stage {} on a {} input: {p}", stage.get(), input.family),
                     J::obj().set("stage", stage.get()),
                 );
             }
             Ok(Ok(_pkg)) => {
                 out.tags.push("outcome:compiled".into());
+                if input.hint.is_some() {
+                    out.tags.push(format!("outcome-of:{}:compiled", input.family));
+                }
             }
             Ok(Err(report)) => {
                 let kinds = roto::verif::report_kinds(&report);
                 out.tags.push(format!("outcome:{}-error", kinds.first().copied().unwrap_or("no")));
+                if input.hint.is_some() {
+                    out.tags.push(format!("outcome-of:{}:{}-error", input.family, kinds.first().copied().unwrap_or("no")));
+                }
                 // both renderings must succeed
                 for color in [true, false] {
                     let r = catch(|| {
@@ -519,7 +619,7 @@ impl Family for Totality {
                     match r {
                         Err(p) => {
                             out.viol(
-                                format!("render-{}", panic_sig(&p)),
+                                format!("render-{}", panic_sig(&mask_quoted_chars(&p))),
                                 format!("rendering the report (color={color}) panicked: {p}"),
                                 J::obj().set("color", color),
                             );
